@@ -64,6 +64,26 @@ def _lexing(ctx) -> None:
             problems.append(f"file opened in mode {mode!r}")
     ctx.ob("a.lexing-delegated", f, "open", not problems, "open(path, 'r', encoding=encoding, newline='')", opens[0] if opens else f.node,
            message="; ".join(problems))
+    # which inputs count as a path: strings and path objects (os.PathLike) - on the symx log, the condition under which open() runs
+    from ..sites2 import interp_of
+    from ..symx import flatten_conds, subterms
+    it = interp_of(prog, f)
+    FILE = ("param", f.params[0])
+    problems = []
+    for e in it.events:
+        if e.kind == "call" and e.term[1] == ("name", "open"):
+            kinds = set()
+            for t, pol in flatten_conds(e.conds):
+                if pol and t[0] == "call" and t[1] == ("name", "isinstance") and len(t[2]) == 2 and t[2][0] == FILE:
+                    ks = t[2][1]
+                    for x in ([ks] if ks[0] != "tuple" else list(ks[1])):
+                        kinds.add(x[1] if x[0] == "name" else x[2] if x[0] == "attr" else "?")
+            if "str" not in kinds:
+                problems.append("a string path is not opened")
+            if not kinds & {"PathLike", "Path", "PurePath"}:
+                problems.append("a path OBJECT (os.PathLike, e.g. pathlib.Path) is not treated as a path: it is handed to csv.reader like an "
+                                "open file and read_csv raises TypeError")
+    ctx.ob("a.lexing-delegated", f, "path-kinds", not problems, "str and os.PathLike inputs are opened", f.node, message="; ".join(problems))
     # forwarding
     calls = [c for c in prog.calls_in(f) if short(c.func) == "_read_csv_from_file"]
     problems = []
@@ -355,6 +375,8 @@ def _nodata(ctx) -> None:
 
 _C = "csv"
 MUTANTS = [
+    dict(id="path-objects-not-opened", module="csv", old="    if isinstance(file, (str, os.PathLike)):", new="    if isinstance(file, str):",
+         rules=["a.lexing-delegated"], desc="the defect repaired by fix fe9aef7: read_csv(pathlib.Path(...)) raises TypeError"),
     dict(id="float-before-int", module=_C,
          edits=[(_C, "    # Try int\n    try:\n        return int(value)\n    except ValueError:\n        pass\n    \n    # Try float\n    try:\n        return float(value)\n    except ValueError:\n        pass",
                  "    # Try float\n    try:\n        return float(value)\n    except ValueError:\n        pass\n    \n    # Try int\n    try:\n        return int(value)\n    except ValueError:\n        pass", 1)],
